@@ -2,6 +2,8 @@
 
 package jd
 
+import "fmt"
+
 // Property-level stand-ins (build tag verif): thin wrappers around the public API whose contracts
 // state the listed properties directly. Their contracts are marked "bounded": the verifier does
 // not attempt to prove them; the harness evaluates them on the real code over finite universes.
@@ -96,4 +98,58 @@ func verifEqualOptions(options []Option) []Option {
 		}
 	}
 	return out
+}
+
+// verifPure (C15): the read-only API leaves its inputs unchanged, repeats its outputs, and a diff
+// still patches after having been rendered in every format.
+func verifPure(a, b JsonNode, options []Option) bool {
+	a0, b0 := verifLit(a), verifLit(b)
+	d := a.Diff(b, options...)
+	d0 := verifLit(d)
+	type out struct {
+		render, patch, merge, eq, ja, ya string
+	}
+	once := func() out {
+		var o out
+		o.render = d.Render(options...)
+		p, err := d.RenderPatch()
+		o.patch = fmt.Sprint(p, err)
+		m, err := d.RenderMerge()
+		o.merge = fmt.Sprint(m, err)
+		o.eq = fmt.Sprint(a.Equals(b, options...), a.Diff(b, options...).Render())
+		o.ja = a.Json() + b.Json()
+		o.ya = a.Yaml() + b.Yaml()
+		return o
+	}
+	patched := func() string {
+		r, err := verifCloneNode(a).Patch(verifCloneDiff(d))
+		return verifLit(r) + fmt.Sprint(err)
+	}
+	before := patched()
+	first := once()
+	for i := 0; i < 2; i++ {
+		if once() != first {
+			return false
+		}
+	}
+	if verifLit(a) != a0 || verifLit(b) != b0 || verifLit(d) != d0 {
+		return false
+	}
+	return patched() == before
+}
+
+// verifReadMergeDeterministic (C15): reading a merge patch gives the same diff every time.
+func verifReadMergeDeterministic(n JsonNode) bool {
+	s := n.Json()
+	d0, err0 := ReadMergeString(s)
+	for i := 0; i < 6; i++ {
+		d, err := ReadMergeString(s)
+		if (err == nil) != (err0 == nil) {
+			return false
+		}
+		if err == nil && d.Render() != d0.Render() {
+			return false
+		}
+	}
+	return true
 }
